@@ -56,6 +56,11 @@ class SpecDataset(metaclass=Plugin):
         ]
 
     def __getattr__(self, attr):
+        # Delegate public SpecArray attributes to the current efth variable
+        if not attr.startswith("_") and attr != "dset":
+            specarray = self.dset[attrs.SPECNAME].spec
+            if hasattr(specarray, attr):
+                return getattr(specarray, attr)
         return getattr(self.dset, attr)
 
     def __repr__(self):
@@ -69,10 +74,9 @@ class SpecDataset(metaclass=Plugin):
             self.spec.hs() becomes equivalent to self.efth.spec.hs()
 
         """
-        for method_name in dir(self.dset[attrs.SPECNAME].spec):
-            if not method_name.startswith("_"):
-                method = getattr(self.dset[attrs.SPECNAME].spec, method_name)
-                setattr(self, method_name, method)
+        # Methods are looked up in __getattr__ at call time so they always act on the
+        # current efth variable rather than on the one present at construction time
+        self.dset[attrs.SPECNAME].spec
 
     def _check_and_stack_dims(self):
         """Ensure dimensions are suitable for dumping in some ascii formats.
